@@ -80,7 +80,13 @@ func newBuild(shape int, A, B, C []byte) (*hlib.Build, bool) {
 		n.Files = []hlib.File{{Path: "A", Data: clone(B)}, {Path: "B", Data: clone(B)}, {Path: "sub/C", Data: clone(B)}, {Path: "zA", Data: clone(A)}, {Path: "zC", Data: clone(C)}}
 	case 18: // A duplicated onto B (original removed), B renamed onto sub/C, C deleted
 		n.Files = []hlib.File{{Path: "B", Data: clone(A)}, {Path: "B2", Data: clone(A)}, {Path: "sub/C", Data: clone(B)}}
-	// kind swaps (reported under a separate finding key)
+	case 19: // A patched in place and also duplicated to two other paths (a group of copies from a file with a pending overlay)
+		if len(A) == 0 {
+			return nil, false
+		}
+		n.Files[0].Data[0] = rt.Byte("edit")
+		n.Files = append(n.Files, hlib.File{Path: "X", Data: clone(A)}, hlib.File{Path: "sub/Y", Data: clone(A)})
+	// kind swaps
 	case 20: // file A becomes a directory holding the old content
 		n.Files[0].Path = "A/inner"
 		n.Links = nil
